@@ -1,9 +1,11 @@
+pub mod c13;
 pub mod c15;
 pub mod c17;
 
 pub fn gen(prop: &str, thorough: bool, seed: u64, out: &mut Vec<String>) {
     let mut rng = crate::rng::Rng::new(seed);
     match prop {
+        "C13" => c13::gen(thorough, &mut rng, out),
         "C15" => c15::gen(thorough, &mut rng, out),
         "C17" => c17::gen(thorough, &mut rng, out),
         _ => panic!("unknown property {}", prop),
@@ -11,6 +13,7 @@ pub fn gen(prop: &str, thorough: bool, seed: u64, out: &mut Vec<String>) {
 }
 pub fn oracle(prop: &str, line: &str) -> String {
     let r = std::panic::catch_unwind(|| match prop {
+        "C13" => c13::oracle(line),
         "C15" => c15::oracle(line),
         "C17" => c17::oracle(line),
         _ => "na".to_string(),
@@ -19,6 +22,7 @@ pub fn oracle(prop: &str, line: &str) -> String {
 }
 pub fn tag(prop: &str, line: &str) -> String {
     match prop {
+        "C13" => c13::tag(line),
         "C15" => c15::tag(line),
         "C17" => c17::tag(line),
         _ => "-".to_string(),
